@@ -159,6 +159,12 @@ def check(ctx, R):
                             good = len(tgt) == 1 and tgt[0].kind == "stmt" and isinstance(tgt[0].ast, ast.Raise) and exc_want in src(tgt[0].ast.exc or ast.Constant(None))
                             R.check(good, "GUARD-exc", "%s|%s" % (f.qualname, exc_want), "guard raises %s" % exc_want,
                                     "guard `%s` does not raise %s" % (src(t), exc_want), f.loc(n.ast))
+    # "available is True exactly from a successful connect()": success is reported only for a CNXN answer (same instances as C05)
+    from .c05 import _manager_connect
+    from ..engine import terms
+    for roles in all_roles(ctx):
+        _manager_connect(ctx, R, roles, terms(ctx))
+        _lazy_generators(ctx, R, roles, rio)
     R.assume("a raise statement leaves the method; no code runs between the guard and the first I/O other than what the CFG shows")
     R.undecided("enumeration of call histories is subsumed: the rule is per-method and history-free")
 
@@ -205,3 +211,20 @@ def _io_nodes(ctx, f, rio):
         if hit:
             out.append(n)
     return out
+
+
+def _lazy_generators(ctx, R, roles, rio):
+    """A public operation that hands back a generator must check availability when the generator RUNS: a plain method that
+    returns a call to a package generator evaluates its guard at creation time, and the I/O happens later, unguarded."""
+    for f in roles.public_ops():
+        if f.is_generator:
+            continue
+        g = ctx.cfg(f)
+        for n in g.live_nodes():
+            if n.kind == "stmt" and isinstance(n.ast, ast.Return) and n.ast.value is not None:
+                v = unawait(n.ast.value)
+                if isinstance(v, ast.Call):
+                    cs = ctx.cg.site(v)
+                    if cs is not None and any(c.is_generator and c in rio for c in cs.callees):
+                        R.fail("GUARD-lazy", "%s|%s" % (f.qualname, norm_stmt(n.ast)), "%s returns a generator that performs the I/O later: the availability guard is evaluated when the generator is created, not when it runs (close() or a failed reconnect in between is not noticed)" % f.name, f.loc(n.ast))
+    R.ok("GUARD-lazy", roles.dev_cls.qualname, "generator-returning operations check availability inside the generator", roles.mod.relpath, trivial=True)
